@@ -1,5 +1,6 @@
 import RpgpProofs.Canon
 import RpgpProofs.CanonReader
+import RpgpModel.Gen.Constants
 /-!
 # C14 — text canonicalisation is one function, however the text is delivered
 
@@ -86,5 +87,19 @@ example : AllNonEmpty [[97, CR], [LF]] := by intro c hc; simp at hc; rcases hc w
 example : crlfCheck [[97, CR], [LF, 98]] = true := by rw [crlf_check_accepts_iff]; decide
 /-- a trailing lone CR stays a lone CR (the defect D6a/D14 appended an LF here) -/
 example : hashedText [[97, CR]] = [97, CR] := by rw [hasher_eq_canon]; decide
+
+end Rpgp.C14
+
+namespace Rpgp.C14
+open Rpgp
+
+/-- the window the code uses (re-extracted from `normalize_lines.rs` on every run) is large
+enough for the request-schedule theorem -/
+theorem extracted_window_ok : 2 ≤ Gen.normalizedReaderWindow := by decide
+
+/-- instantiation at the extracted window -/
+theorem reader_eq_canon_extracted (d : Bytes) :
+    normalizedRead Gen.normalizedReaderWindow d = canon d :=
+  reader_eq_canon _ (by decide) d
 
 end Rpgp.C14
